@@ -30,6 +30,8 @@ type rangeState struct {
 	start   uint32
 	end     uint32
 	leaseNs int64
+	// a handler call did not come back: this instance is not asked any more
+	wedged bool
 }
 
 func (s *rangeState) close() {
@@ -116,10 +118,21 @@ func (s *rangeState) rowsFor(mac []byte) string {
 	return fmt.Sprintf("rows %d %s %s", len(out), strings.Join(out, " "), key)
 }
 
+// pre51: when not zero, the reply handed to the handler already carries this lease time (a lease_time plugin before range)
+var pre51 uint32
+
 func askOne(h handler.Handler4, typ string, mac, host []byte) string {
+	return watchdog(10*time.Second, func() string { return askOne1(h, typ, mac, host) })
+}
+
+func askOne1(h handler.Handler4, typ string, mac, host []byte) string {
 	return guard(func() string {
 		req := mkReq4(typ, mac, host)
-		resp, stop := h(req, stubResp4(req))
+		pre := stubResp4(req)
+		if pre51 != 0 {
+			pre.UpdateOption(dhcpv4.OptIPAddressLeaseTime(time.Duration(pre51) * time.Second))
+		}
+		resp, stop := h(req, pre)
 		if resp == nil {
 			if !stop {
 				return "drop-nostop"
@@ -155,6 +168,7 @@ func (s *rangeState) exec(c *ctx, op string) string {
 	f := strings.Fields(op)
 	switch f[0] {
 	case "rsetup":
+		s.wedged = false
 		s.close()
 		dir, err := os.MkdirTemp(".", "range")
 		if err != nil {
@@ -189,12 +203,26 @@ func (s *rangeState) exec(c *ctx, op string) string {
 		mac, host := unhx(f[2]), unhx(f[3])
 		reqIP = nil
 		if len(f) > 4 {
-			reqIP = net.IP(unhx(f[4])) // rreq <D|R> <mac> <host> [<option 50>]
+			reqIP = net.IP(unhx(f[4])) // rreq <D|R> <mac> <host> [<option 50>|-] [<lease time already in the reply>]
+		}
+		pre51 = 0
+		if len(f) > 5 {
+			pre51 = uint32(atoi(f[5]))
+		}
+		if s.wedged {
+			c.emit(op, "SKIP after-hang")
+			return "SKIP"
 		}
 		t0 := vnow()
 		res := askOne(s.h, f[1], mac, host)
 		t1 := vnow()
 		reqIP = nil
+		pre51 = 0
+		if res == "HANG" {
+			s.wedged = true
+			c.emit(op, fmt.Sprintf("%d %d HANG", t0, t1))
+			return res
+		}
 		res += " " + s.rowsFor(mac)
 		c.emit(op, fmt.Sprintf("%d %d %s", t0, t1, res))
 		return res
@@ -349,6 +377,13 @@ func genRange(c *ctx) {
 			if c.rng.Intn(4) == 0 {
 				// a requested address: in the range, the first one, none (0.0.0.0), outside
 				opt50 = " " + hx([]net.IP{u32ip(start + uint32(c.rng.Intn(int(size)))), u32ip(start), net.IPv4zero.To4(), net.IPv4(192, 168, 1, 77).To4()}[c.rng.Intn(4)])
+			}
+			if c.rng.Intn(6) == 0 {
+				// a lease_time plugin before range: the reply range is handed already carries a (longer, shorter) lease time
+				if opt50 == "" {
+					opt50 = " -"
+				}
+				opt50 += fmt.Sprintf(" %d", []int{3600, 86400, 1, 7}[c.rng.Intn(4)])
 			}
 			s.exec(c, fmt.Sprintf("rreq %s %s %s%s", typ, hx(m), hx(hosts[c.rng.Intn(len(hosts))]), opt50))
 			if !used[hx(m)] {
